@@ -2,7 +2,7 @@
 import random
 from harness import tlc, asmgen, asmcheck, asmio, proggen
 from harness.asmcheck import Case, framed
-from harness.props import c01
+from harness.props import c01, c04
 
 ALPHABET = "0123456789ABCDEFXYUSPCRD$%#<>[],+-*/'@LV.z"
 
@@ -58,6 +58,8 @@ def run(ctx):
         for a, op, b in pairs:
             cases.append(framed(asmgen.with_expr(s, ex(num(a, rnd.choice(["dec", "hex"])), op, num(b, rnd.choice(["dec", "hex4"])))), "expr-range"))
     asmcheck.run_suite(ctx, "expression-results-out-of-range", cases)
+    # a label's address on every width boundary, in every fixed-width operand position (a value too wide for the field is rejected, not cut)
+    asmcheck.run_suite(ctx, "label-boundary", c04.label_boundary_cases(rnd, 20000 if thorough else 1000))
     # (b) code -> spec: single-edit mutations of valid operand strings (no abstract form: decode clauses only)
     n = 400000 if thorough else 30000
     cases = []
